@@ -175,7 +175,7 @@ def finish_sym(res, specs, built, dagfiles, results, opts):
                 res.obligations += r['side']; res.discharged += r['side_ok']
                 if r['side_ok'] != r['side']:
                     res.undecided.append('%s path %d: side obligations %s' % (e.name, p.idx, r.get('side_fail')))
-                approx = r.get('eps_switch', False)
+                approx = r.get('eps_switch', False) and opts.get('approx_ok', True)
                 bad_outcome = ('noraise' in p.notes and p.outcome.startswith('raise')) or ('mustraise' in p.notes and p.outcome == 'ret')
                 if bad_outcome:
                     res.obligations += 1
@@ -203,7 +203,9 @@ def outcome_violation(res, s, e, p, r, dbin, known):
     key = '%s:p%d:outcome=%s' % (e.name, p.idx, p.outcome.split(':')[-1])
     m = r.get('feas_model')
     if not m:
-        res.undecided.append('%s: path feasibility %s, no model' % (key, r.get('feasible'))); return
+        if p.decisions or any(n.op == 'var' for n in e.nodes.values()):
+            res.undecided.append('%s: path feasibility %s, no model' % (key, r.get('feasible'))); return
+        m = {}     # concrete entry: nothing to choose
     asgs = prove.complete_model(e, p, m) or [m]
     asg = asgs[0]
     rundir = os.path.join(build.WORK, 'run', res.pid)
